@@ -30,42 +30,8 @@ func checkC04(c *Ctx) {
 	{
 		w := c.Method(CorePath, "ioCore", "Write")
 		if c.Anchor("R4.1", "zapcore.ioCore.Write", w != nil) {
-			var enc, free *ssa.Call
-			var outs []*ssa.Call
-			nfree := 0
-			for _, cl := range Calls(w) {
-				call, _ := cl.(*ssa.Call)
-				switch {
-				case IsCallTo(cl, "(go.uber.org/zap/zapcore.Encoder).EncodeEntry"):
-					enc = call
-				case IsCallTo(cl, "(io.Writer).Write", "(go.uber.org/zap/zapcore.WriteSyncer).Write"):
-					outs = append(outs, call)
-				case IsCallTo(cl, "(*go.uber.org/zap/buffer.Buffer).Free"):
-					free = call
-					nfree++
-				}
-			}
-			ok := enc != nil && len(outs) == 1 && free != nil && nfree == 1
-			if ok {
-				bufD := Desc(enc) + "#0"
-				ok = Desc(Args(free)[0]) == bufD && Desc(Args(outs[0])[1]) == "Bytes("+bufD+")" && Dominates(outs[0], free) && Desc(Args(outs[0])[0]) == "c.out"
-				start := successStart(w, enc)
-				ok = ok && !ExistsPath(w, start, IsReturn, func(i ssa.Instruction) bool { return i == ssa.Instruction(outs[0]) })
-				ok = ok && !ExistsPath(w, start, IsReturn, func(i ssa.Instruction) bool { return i == ssa.Instruction(free) })
-				ok = ok && LoopHeader(outs[0].Block()) == nil
-			}
+			ok, others := ioCoreWriteShape(c, w)
 			c.Check(ok, "R4.1", w.String(), "one-whole-line-write", w.Pos(), "each accepted entry causes exactly one c.out.Write of the complete encoded line (buf.Bytes() of EncodeEntry's buffer), and the buffer goes back to the pool once, only after that call returned")
-			// no other method of ioCore writes to out
-			var others []string
-			for _, fn := range c.RootFuncs() {
-				if rn := RecvNamed(fn); rn != nil && rn.Obj().Name() == "ioCore" && fn != w {
-					for _, cl := range Calls(fn) {
-						if IsCallTo(cl, "(io.Writer).Write", "(go.uber.org/zap/zapcore.WriteSyncer).Write") {
-							others = append(others, fn.Name())
-						}
-					}
-				}
-			}
 			c.Check(len(others) == 0, "R4.1", w.String(), "only-writer", w.Pos(), "no other ioCore method writes to the sink (%v)", others)
 		}
 	}
@@ -208,4 +174,54 @@ func c8Ownership4(c *Ctx, rule string) {
 		okV := IsNilConst(Strip(st.Val)) || isFreshBuffer(st.Val)
 		c.Check(okV, rule, FuncKey(a.Fn), "buffer-field/"+a.Field+"@"+relLine(c, a), st.Pos(), "jsonEncoder.%s is assigned %s: nil or a buffer fresh from the pool (two encoders sharing one pooled buffer corrupt each other's lines)", a.Field, Desc(st.Val))
 	}
+}
+
+// ioCoreWriteShape: EncodeEntry, then exactly one sink Write of the whole
+// encoded buffer, then exactly one Free, on every path that got a buffer
+// (the sequence may live in an extracted helper).
+func ioCoreWriteShape(c *Ctx, w *ssa.Function) (bool, []string) {
+	var enc, free *ssa.Call
+	var outs []*ssa.Call
+	nfree := 0
+	for _, cl := range CallsDeep(w) {
+		call, _ := cl.(*ssa.Call)
+		switch {
+		case IsCallTo(cl, "(go.uber.org/zap/zapcore.Encoder).EncodeEntry"):
+			enc = call
+		case IsCallTo(cl, "(io.Writer).Write", "(go.uber.org/zap/zapcore.WriteSyncer).Write"):
+			outs = append(outs, call)
+		case IsCallTo(cl, "(*go.uber.org/zap/buffer.Buffer).Free"):
+			free = call
+			nfree++
+		}
+	}
+	rc := w.Params[0].Name()
+	ok := enc != nil && len(outs) == 1 && free != nil && nfree == 1
+	if ok {
+		bufD := Desc(enc) + "#0"
+		var fd, od, dst string
+		Bound(func() {
+			fd, od, dst = Desc(Args(free)[0]), Desc(Args(outs[0])[1]), Desc(Args(outs[0])[0])
+		})
+		ok = fd == bufD && od == "Bytes("+bufD+")" && Dominates(outs[0], free) && dst == rc+".out"
+		start := successStart(w, enc)
+		ok = ok && !ExistsPath(w, start, IsReturn, func(i ssa.Instruction) bool { return i == ssa.Instruction(outs[0]) })
+		ok = ok && !ExistsPath(w, start, IsReturn, func(i ssa.Instruction) bool { return i == ssa.Instruction(free) })
+		ok = ok && LoopHeader(outs[0].Block()) == nil && !ExistsPath(w, free, func(i ssa.Instruction) bool { return i == ssa.Instruction(free) || i == ssa.Instruction(outs[0]) }, nil)
+	}
+	region := map[*ssa.Function]bool{}
+	for _, f := range Region(w) {
+		region[f] = true
+	}
+	var others []string
+	for _, fn := range c.RootFuncs() {
+		if rn := RecvNamed(fn); rn != nil && rn.Obj().Name() == "ioCore" && !region[fn] {
+			for _, cl := range Calls(fn) {
+				if IsCallTo(cl, "(io.Writer).Write", "(go.uber.org/zap/zapcore.WriteSyncer).Write") {
+					others = append(others, fn.Name())
+				}
+			}
+		}
+	}
+	return ok, others
 }
